@@ -111,8 +111,33 @@ def rng(t):
             return (max(r[0], b[0]), min(r[1], b[1]))
     return _rng(t)
 
-def refine(c, ranges):
+def refine(c, ranges, _untrunc=True):
     """record in `ranges` what the truth of condition c says about single leaves"""
+    if _untrunc and any(u[0] == 'trunc' for u in subterms(c)):
+        # a truncation of a value the ranges already confine to the width is the value itself: what the condition says
+        # about `trunc32(x)` it says about x (chains `x <= u32::MAX`, `x as u32 <= 0xffff`, `x as u16 <= 0xff`)
+        global CTX
+        saved = CTX; CTX = ranges
+        try:
+            def g(x):
+                if x[0] == 'trunc':
+                    lo, hi = rng(x[1])
+                    if lo >= 0 and hi < (1 << x[2]): return x[1]
+                    # trunc_w(x) = trunc_w(trunc_W(x)) for W > w: when the wider truncation is confined to w bits they agree
+                    for W in (64, 32, 16):
+                        if W > x[2]:
+                            tw = ('trunc', x[1], W)
+                            if tw in ranges:
+                                lo, hi = rng(tw)
+                                if lo >= 0 and hi < (1 << x[2]): return tw
+                return None
+            c2 = rebuild(c, g)
+        except Exception:
+            c2 = c
+        finally:
+            CTX = saved
+        if c2 == FALSE: ranges[('a', '$infeasible')] = (1, 0)      # the condition contradicts what the ranges already say
+        elif c2 != c and c2[0] in ('le', 'lt', 'eq', 'bnot', 'band'): refine(c2, ranges, False)
     if c[0] == 'bnot':
         x = c[1]
         if x[0] == 'le': return refine(('lt', x[2], x[1]), ranges)
@@ -242,11 +267,19 @@ def _rng(t):
         return DISCR_RANGE.get(t[1], (0, BIG))
     if k == 'call' and t[1] == 'bitlen':
         lo, hi = rng(t[2])
-        if lo >= 0 and hi < BIG: return (lo.bit_length(), hi.bit_length())
-        return (0, 64)
+        if lo >= 0 and hi < BIG: return (lo.bit_length(), min(hi.bit_length(), 64))
+        # the operand is a value of an unsigned type of at most 64 bits
+        return (min(lo.bit_length(), 64) if lo >= 0 else 0, 64)
+    if k == 'call' and t[1] == 'npow2':
+        # next_power_of_two is monotone: the range of the operand bounds the result
+        lo, hi = rng(t[2])
+        if lo >= 0 and hi < BIG: return (_npow2(lo), _npow2(hi))
+        return (1, BIG)
     if k == 'payload' or k == 'call':
         return CALL_RANGE.get(t, (0, BIG))
     return (-BIG, BIG)
+
+def _npow2(n): return 1 if n <= 1 else 1 << (n - 1).bit_length()
 
 SEL_RANGE = {}
 DISCR_RANGE = {}
@@ -577,7 +610,7 @@ def equal(a, b, facts=(), max_split=10, _depth=0):
             if not _consistent(cm, facts): continue
             global CTX
             saved = CTX
-            ranges = {}
+            ranges = dict(saved) if saved else {}      # what the caller already knows about ranges holds in every case
             for _r0 in range(3):
                 for c, v in zip(conds, asg):
                     if c[0] in ('a', 'sel'): refine(('eq', c, C(1 if v else 0)), ranges)      # a 0/1 leaf decided by cases
@@ -601,6 +634,10 @@ def equal(a, b, facts=(), max_split=10, _depth=0):
                     r = cm.get(x)
                     if r is not None: return r
                     if x in ranges and x[0] != 'c':
+                        lo_, hi_ = rng(x)
+                        if lo_ == hi_: return C(lo_)
+                    if x[0] == 'call' and x[1] in ('npow2', 'bitlen'):
+                        # monotone functions of a value the case confines to one bit length / one power of two
                         lo_, hi_ = rng(x)
                         if lo_ == hi_: return C(lo_)
                     return None
